@@ -1,7 +1,8 @@
-(* C01 - compiler correctness, the invariant of Table.add over any visiting order.
-   Ghost state: the block list B (index = expand B) and four node sets telling which phases of Table.add have been
-   carried out for which nodes (loader registration, dumper/committer wiring, functor registration, Linkage.update);
-   between two add() calls the four sets coincide. *)
+(* C01 - compiler correctness, the invariant of Table.add over ANY visiting order, for segments without persistent
+   groups (no asset accessor, or one listing none of the segment's stateful groups): the loader / dumper / committer
+   branch of Table.add is dead there.
+   Ghost state: the block list B (index = expand B), the set Sf of nodes whose functor is registered and the predicate Dn
+   telling for which output ports Linkage.update has run (between two add() calls: all ports of the nodes of Sf). *)
 Require Import List Bool ZArith Arith Lia.
 From FV Require Import Lib.Sym Model.C01 Model.C01Compile Proofs.C01Prim Proofs.C01Blocks.
 Import ListNotations.
@@ -16,18 +17,18 @@ Definition preset_of (i : nat) (nd : node) : bool := nstateful nd && (pers nd ||
 Definition fop (i : nat) (nd : node) : op := OFunctor i (strain nd) (preset_of i nd).
 Definition fkeys (i : nat) (nd : node) : list key := KU i :: (if strain nd then [KG (ngid nd)] else []).
 
-(* ---- static well-formedness facts (derived from wfb in C01Wf.v) ---------------------------------------- *)
+(* ---- static well-formedness facts (derived from wfb in C01Main.v) --------------------------------------- *)
 Record WF : Prop := {
   w_ports : forall j nd q ip, nth_error nodes j = Some nd -> nth_error (ports nd) q = Some ip ->
               fst ip < j /\ exists ndi, nth_error nodes (fst ip) = Some ndi /\ is_train ndi = false /\ snd ip < nszout ndi;
   w_train_stateful : forall i nd, nth_error nodes i = Some nd -> is_train nd = true -> nstateful nd = true;
   w_unique : forall i nd i' nd', nth_error nodes i = Some nd -> nth_error nodes i' = Some nd' ->
               is_train nd = true -> is_train nd' = true -> ngid nd = ngid nd' -> i = i';
-  w_assets : forall l, a = Some l -> NoDup (map fst l)
+  w_nopers : forall i nd, nth_error nodes i = Some nd -> pers nd = false
 }.
 Hypothesis wf : WF.
 
-(* ---- sources and state keys ------------------------------------------------------------------------------- *)
+(* ---- sources ------------------------------------------------------------------------------------------------ *)
 Definition getter_of (T : tbl) (B : blocks) (i p : nat) (k : key) : Prop :=
   exists c I, k = KF c /\ In (I, [KF c]) B /\ iop I = OGetter p /\ arow T (KF c) = [Some (KU i)].
 
@@ -35,30 +36,12 @@ Definition srckey (T : tbl) (B : blocks) (ip : nat * nat) (k : key) : Prop :=
   exists ndi, nth_error nodes (fst ip) = Some ndi
     /\ ((nszout ndi = 1 /\ k = KU (fst ip)) \/ (nszout ndi <> 1 /\ getter_of T B (fst ip) (snd ip) k)).
 
-Definition loader_at (T : tbl) (B : blocks) (g : nat) (k : key) : Prop :=
-  exists I, In (I, [k]) B /\ iop I = OLoader g /\ arow T k = [].
+Inductive bkind (Sf : list nat) (Dn : nat -> nat -> Prop) (T : tbl) : instr -> list key -> Prop :=
+  | BFun i nd I : In i Sf -> nth_error nodes i = Some nd -> iop I = fop i nd -> bkind Sf Dn T I (fkeys i nd)
+  | BGet i nd p c I : In i Sf -> nth_error nodes i = Some nd -> is_train nd = false -> nszout nd <> 1 -> p < nszout nd ->
+      iop I = OGetter p -> arow T (KF c) = [Some (KU i)] -> bkind Sf Dn T I [KF c].
 
-Definition statekey_ok (T : tbl) (B : blocks) (nd : node) (sk : key) : Prop :=
-  if strain nd && pers nd then (exists c, sk = KF c) /\ loader_at T B (ngid nd) sk else sk = KG (ngid nd).
-
-Definition dumper_of (T : tbl) (B : blocks) (i : nat) (k : key) : Prop :=
-  exists c I, k = KF c /\ In (I, [KF c]) B /\ iop I = ODumper /\ arow T (KF c) = [Some (KU i)].
-
-(* ---- block kinds ------------------------------------------------------------------------------------------ *)
-Inductive bkind (Sd Sf Sr : list nat) (T : tbl) : instr -> list key -> Prop :=
-  | BFun i nd I : In i Sf -> nth_error nodes i = Some nd -> iop I = fop i nd -> bkind Sd Sf Sr T I (fkeys i nd)
-  | BGet i nd p c I : In i Sr -> nth_error nodes i = Some nd -> is_train nd = false -> nszout nd <> 1 -> p < nszout nd ->
-      iop I = OGetter p -> arow T (KF c) = [Some (KU i)] -> bkind Sd Sf Sr T I [KF c]
-  | BLoad g k I : iop I = OLoader g -> persistent a g = true -> arow T k = [] -> (k = KG g \/ exists c, k = KF c) ->
-      bkind Sd Sf Sr T I [k]
-  | BDump i nd c I : In i Sd -> nth_error nodes i = Some nd -> strain nd = true -> pers nd = true -> iop I = ODumper ->
-      arow T (KF c) = [Some (KU i)] -> bkind Sd Sf Sr T I [KF c]
-  | BComm c I : iop I = OCommitter -> committer T = Some (KF c) -> bkind Sd Sf Sr T I [KF c].
-
-Definition trainer_in (Sd : list nat) (g : nat) : Prop :=
-  exists k ndk, In k Sd /\ nth_error nodes k = Some ndk /\ strain ndk = true /\ ngid ndk = g.
-
-Record Inv (Sl Sd Sf Sr : list nat) (T : tbl) (B : blocks) : Prop := {
+Record Inv (Sf : list nat) (Dn : nat -> nat -> Prop) (T : tbl) (B : blocks) : Prop := {
   v_idx : index T = expand B;
   v_ids : NoDup (map bid B);
   v_keys : NoDup (map fst (expand B));
@@ -66,41 +49,58 @@ Record Inv (Sl Sd Sf Sr : list nat) (T : tbl) (B : blocks) : Prop := {
   v_arows : forall k, arow T k <> [] -> (exists j nd, k = KU j /\ nth_error nodes j = Some nd) \/ In k (map fst (expand B));
   v_prows : forall k, prow T k <> [] -> exists j, In j Sf /\ k = KU j;
   v_anodup : NoDup (map fst (absl T)) /\ NoDup (map fst (pref T));
-  v_kinds : forall I ks, In (I, ks) B -> bkind Sd Sf Sr T I ks;
+  v_comm : committer T = None;
+  v_rowsne : (forall k, In k (map fst (absl T)) -> arow T k <> []) /\ (forall k, In k (map fst (pref T)) -> prow T k <> []);
+  v_kgrow : forall g, arow T (KG g) = [];
+  v_kinds : forall I ks, In (I, ks) B -> bkind Sf Dn T I ks;
   v_fun : forall i, In i Sf -> exists nd I, nth_error nodes i = Some nd /\ In (I, fkeys i nd) B /\ iop I = fop i nd;
-  v_get : forall i nd p, In i Sr -> nth_error nodes i = Some nd -> is_train nd = false -> nszout nd <> 1 -> p < nszout nd ->
+  v_get : forall i nd p, Dn i p -> nth_error nodes i = Some nd -> is_train nd = false -> nszout nd <> 1 -> p < nszout nd ->
             exists k, getter_of T B i p k;
   v_rows : forall j nd, nth_error nodes j = Some nd ->
             List.length (arow T (KU j)) <= List.length (ports nd)
             /\ forall q ip, nth_error (ports nd) q = Some ip ->
-                 (In (fst ip) Sr -> exists k, aget T (KU j) q = Some k /\ srckey T B ip k)
-                 /\ (~ In (fst ip) Sr -> aget T (KU j) q = None);
+                 (Dn (fst ip) (snd ip) -> exists k, aget T (KU j) q = Some k /\ srckey T B ip k)
+                 /\ (~ Dn (fst ip) (snd ip) -> aget T (KU j) q = None);
   v_pref : forall i nd, nth_error nodes i = Some nd ->
-            (In i Sf -> preset_of i nd = true -> exists sk, prow T (KU i) = [sk] /\ statekey_ok T B nd sk)
-            /\ ((~ In i Sf \/ preset_of i nd = false) -> prow T (KU i) = []);
-  v_load : forall j nd, In j Sl -> nth_error nodes j = Some nd -> pers nd = true -> ~ trainer_in Sd (ngid nd) ->
-            loader_at T B (ngid nd) (KG (ngid nd));
-  v_comm : (committer T = None -> forall i nd, In i Sd -> nth_error nodes i = Some nd -> strain nd && pers nd = false)
-           /\ forall ck, committer T = Some ck ->
-                (exists c I, ck = KF c /\ In (I, [KF c]) B /\ iop I = OCommitter)
-                /\ (forall l, a = Some l -> List.length (arow T ck) <= List.length l)
-                /\ forall off,
-                     (forall i nd, In i Sd -> nth_error nodes i = Some nd -> strain nd && pers nd = true ->
-                                   offset a (ngid nd) = Some off -> exists k, aget T ck off = Some k /\ dumper_of T B i k)
-                     /\ ((forall i nd, In i Sd -> nth_error nodes i = Some nd -> strain nd && pers nd = true ->
-                                       offset a (ngid nd) <> Some off) -> aget T ck off = None)
+            (In i Sf -> preset_of i nd = true -> prow T (KU i) = [KG (ngid nd)])
+            /\ ((~ In i Sf \/ preset_of i nd = false) -> prow T (KU i) = [])
 }.
 
-Lemma inv_empty : Inv [] [] [] [] empty [].
+Lemma inv_empty : Inv [] (fun _ _ => False) empty [].
 Proof.
-  constructor; simpl; try (constructor; fail); try tauto.
-  - split; intros ? [].
+  constructor.
+  - reflexivity.
+  - constructor.
+  - constructor.
+  - split; simpl; intros ? [].
   - intros k H. exfalso. apply H. reflexivity.
   - intros k H. exfalso. apply H. reflexivity.
   - split; constructor.
+  - reflexivity.
+  - split; intros k [].
+  - intros g. reflexivity.
+  - intros I ks [].
+  - intros i [].
+  - intros i nd p [].
   - intros j nd Hn. split; [unfold arow; simpl; lia|]. intros q ip Hq. split; [intros []|]. intros _. unfold aget, arow. simpl. destruct q; reflexivity.
   - intros i nd Hn. split; [intros []|]. intros _. reflexivity.
-  - split; [intros _ i nd []|]. intros ck H. discriminate H.
+Qed.
+
+(* the port predicate only matters on existing ports *)
+Lemma inv_ext Sf Dn Dn' T B :
+  (forall j nd p, nth_error nodes j = Some nd -> is_train nd = false -> p < nszout nd -> (Dn j p <-> Dn' j p)) ->
+  Inv Sf Dn T B -> Inv Sf Dn' T B.
+Proof.
+  intros E H. destruct H. constructor; auto.
+  - intros I ks Hin. destruct (v_kinds0 I ks Hin) as [i nd I0 Hi Hn Ho|i nd p c I0 Hd Hn Ht Hz Hp Ho Hr].
+    + apply (BFun Sf Dn' T i nd I0 Hi Hn Ho).
+    + apply (BGet Sf Dn' T i nd p c I0); auto.
+  - intros i nd p Hd Hn Ht Hz Hp. apply (v_get0 i nd p); auto. apply (E i nd p Hn Ht Hp). exact Hd.
+  - intros j nd Hn. destruct (v_rows0 j nd Hn) as [Hl Hq]. split; [exact Hl|]. intros q ip Hip.
+    destruct (w_ports wf j nd q ip Hn Hip) as [_ [ndi [Hni [Hti Hpi]]]].
+    destruct (Hq q ip Hip) as [H1 H2]. split; intros Hd.
+    + apply H1. apply (E (fst ip) ndi (snd ip) Hni Hti Hpi). exact Hd.
+    + apply H2. intros X. apply Hd. apply (E (fst ip) ndi (snd ip) Hni Hti Hpi). exact X.
 Qed.
 
 End Inv.
